@@ -22,11 +22,27 @@ def hexDigit? (c : Char) : Option Nat :=
   else if 'A' ≤ c ∧ c ≤ 'F' then some (c.toNat - 'A'.toNat + 10)
   else none
 
+/-- small chunk (≤ 15 hex digits) -/
+def parseHexSmall? (a : Array Char) (lo hi : Nat) : Option Nat :=
+  (List.range (hi - lo)).foldl (fun acc i => match acc, hexDigit? (a.getD (lo + i) ' ') with
+    | some v, some d => some (v * 16 + d)
+    | _, _ => none) (some 0)
+
+/-- divide-and-conquer hex parser: O(n log n) bignum work instead of the quadratic digit-by-digit loop
+    (operands of 16 000 limbs occur in the C05 huge-operand runs) -/
+def parseHexRange? (a : Array Char) : Nat → Nat → Nat → Option Nat
+  | 0, _, _ => none
+  | fuel + 1, lo, hi =>
+    if hi - lo ≤ 15 then parseHexSmall? a lo hi else
+    let mid := lo + (hi - lo) / 2
+    match parseHexRange? a fuel lo mid, parseHexRange? a fuel mid hi with
+    | some x, some y => some ((x <<< (4 * (hi - mid))) ||| y)
+    | _, _ => none
+
 def parseHexNat? (cs : List Char) : Option Nat :=
   if cs.isEmpty then none else
-  cs.foldl (fun acc c => match acc, hexDigit? c with
-    | some a, some d => some (a * 16 + d)
-    | _, _ => none) (some 0)
+  let a := cs.toArray
+  parseHexRange? a 64 0 a.size
 
 def parseBytes? : List Char → Option (List UInt8)
   | [] => some []
@@ -54,13 +70,26 @@ def parseTok? (s : String) : Option Tok :=
 def hexChar (d : Nat) : Char :=
   if d < 10 then Char.ofNat ('0'.toNat + d) else Char.ofNat ('a'.toNat + d - 10)
 
-def hexOfNat (n : Nat) : String :=
-  if n = 0 then "0" else
+def hexSmall (n : Nat) : List Char :=
   let rec go (fuel n : Nat) (acc : List Char) : List Char :=
     match fuel with
     | 0 => acc
     | fuel + 1 => if n = 0 then acc else go fuel (n / 16) (hexChar (n % 16) :: acc)
-  String.ofList (go (n.log2 / 4 + 2) n [])
+  go 20 n []
+
+/-- divide-and-conquer hex printer; `digits` = exact number of hex digits to produce (zero padded) -/
+def hexPadded : Nat → Nat → Nat → List Char
+  | 0, _, _ => []
+  | fuel + 1, n, digits =>
+    if digits ≤ 15 then
+      let cs := hexSmall n
+      List.replicate (digits - cs.length) '0' ++ cs
+    else
+      let lowd := digits / 2
+      hexPadded fuel (n >>> (4 * lowd)) (digits - lowd) ++ hexPadded fuel (n &&& ((1 <<< (4 * lowd)) - 1)) lowd
+
+def hexOfNat (n : Nat) : String :=
+  if n = 0 then "0" else String.ofList (hexPadded 64 n (n.log2 / 4 + 1))
 
 def hexOfByte (b : UInt8) : String :=
   String.ofList [hexChar (b.toNat / 16), hexChar (b.toNat % 16)]
